@@ -108,14 +108,14 @@ def field_signature(fld, w, v):
     """signature of 'accepted although it does not fit' by call site and region"""
     site = "bit_concat" if fld["concat"] else "Token.__setitem__"
     if v >= (1 << w):
-        return f"{site}:accepts-above-field-width"
+        return f"{site}:accepts-[2^w,inf)"
     if v < -(1 << w):
-        return f"{site}:accepts-below-minus-2^w"
+        return f"{site}:accepts-(-inf,-2^w)"
     if v < -(1 << (w - 1)):
-        return f"{site}:accepts-below-signed-range"
+        return f"{site}:accepts-[-2^w,-2^(w-1))"
     if v < 0:
-        return f"{site}:accepts-negative-into-unsigned-field"
-    return f"{site}:signed-field-accepts-unsigned-range"
+        return f"{site}:accepts-[-2^(w-1),0)-into-unsigned-field"
+    return f"{site}:accepts-[2^(w-1),2^w)-into-signed-field"
 
 
 def check_tokens(ctx, tabs):
@@ -232,6 +232,30 @@ RELOCS = {
     ("misc", "absaddr32"): dict(bias=0, bits=33, data="00000000", absolute=True),
     ("misc", "absaddr64"): dict(bias=0, bits=65, data="0000000000000000", absolute=True),
 }
+# architectural width n (in address units, scale included) of the signed displacement each relative type can hold;
+# for bl_imm11 / b_imm11_imm6 the width for which ppci's encoding is right (J1 = J2 = 1 resp. J1 = J2 = S);
+# unsigned width for the absolute types.  Findings are keyed by the REGION of the displacement relative to n.
+WIDTH = {"b_imm12": 13, "b_imm20": 21, "cb_imm11": 21, "cbl_imm11": 21, "bc_imm11": 12, "bc_imm8": 9, "imm24": 26,
+         "ldr_imm12": 13, "adr_imm12": 13, "lit8": 11, "wrap_new11": 12, "rel8": 9, "bl_imm11": 23, "b_imm11_imm6": 19,
+         "rel32": 32, "jmp8": 8, "abs32": 32, "abs64": 64, "absaddr16": 16, "absaddr32": 32, "absaddr64": 64,
+         "abs32_imm20": 32, "abs32_imm12": 32, "rel_imm20": 32, "rel_imm12": 32}
+UNSIGNED = {"abs32", "abs64", "absaddr16", "absaddr32", "absaddr64", "abs32_imm20", "abs32_imm12"}
+
+
+def region(name, d):
+    """which of the regions (relative to the field's width n) the displacement / address d lies in"""
+    n = WIDTH[name]
+    if name in UNSIGNED:
+        return "negative" if d < 0 else ("in-range" if d < (1 << n) else f">=2^{n}")
+    if d >= 0:
+        if d < (1 << (n - 1)):
+            return "in-signed-range"
+        return f"[2^{n - 1},2^{n})" if d < (1 << n) else f">=2^{n}"
+    if d >= -(1 << (n - 1)):
+        return "in-signed-range"
+    return f"[-2^{n},-2^{n - 1})" if d >= -(1 << n) else f"<-2^{n}"
+
+
 # types whose apply ORs into the bytes: the property is evaluated on a clear field only
 OR_TYPES = {("arm", "ldr_imm12"), ("arm", "adr_imm12"), ("thumb", "b_imm11_imm6"),
             ("thumb", "bl_imm11")}   # bl_imm11 relies on J1 = J2 = 1 in the emitted instruction
@@ -281,7 +305,9 @@ def check_relocs(ctx, tabs):
         if isa == "thumb":
             sites = [0, 2, 4, 6, 0x1002]
         if not ctx.thorough:
-            sites = sites[:3]
+            sites = sites[:2]
+        if not cfg.get("absolute"):
+            sites = sites + [1 << (cfg["bits"] + 2)]      # far site: displacements below the signed minimum keep S >= 0
         for A in cfg.get("addends", [0]):
             for P in sites:
                 for d in reloc_distances(cfg["bits"], ctx.rng, ctx.thorough):
@@ -295,7 +321,8 @@ def check_relocs(ctx, tabs):
                             impl = "ok " + bytes(r).hex()
                         except Exception as e:  # noqa
                             impl = "err " + exc_name(e)
-                        case = {"isa": isa, "reloc": name, "cls": cls.__name__, "S": S, "P": P, "addend": A, "data": data.hex()}
+                        case = {"isa": isa, "reloc": name, "cls": cls.__name__, "S": S, "P": P, "addend": A, "data": data.hex(),
+                                "d": d, "region": region(name, d) if name in WIDTH else "?"}
                         reqs.append(f"rapply {isa} {name} {A} {S} {data.hex()} {P}")
                         meta.append(("rapply", impl, case))
                         if S < 0 or (isa, name) in NO_SPEC:
@@ -339,8 +366,9 @@ def check_relocs(ctx, tabs):
             rep[key] = (m == "ok true")
             ctx.count("eval_reloc_property")
             if impl.startswith("ok") and m != "ok true" and (case["isa"], case["reloc"]) not in HILO:
-                ctx.fail(f"{case['cls']}:accepts-unrepresentable",
-                         f"{case['isa']} {case['reloc']}: S={case['S']} P={case['P']} A={case['addend']} is not representable but apply succeeds ({impl[3:]})",
+                ctx.fail(f"{case['cls']}:accepts-{case['region']}",
+                         f"{case['isa']} {case['reloc']}: displacement {case['d']} (S={case['S']} P={case['P']} A={case['addend']}) lies in "
+                         f"{case['region']}, is not representable, but apply succeeds ({impl[3:]})",
                          case, impl=impl)
             if impl.startswith("err") and m == "ok true":
                 ctx.count("reloc_rejects_representable")
@@ -348,8 +376,9 @@ def check_relocs(ctx, tabs):
             key = (case["isa"], case["reloc"], case["S"], case["P"], case["addend"], case["data"])
             want = case["S"] + (case["addend"] if (case["isa"], case["reloc"]) == ("x86_64", "rel32") else 0)
             if rep.get(key) and m != f"ok {want}":
-                ctx.fail(f"{case['cls']}:wrong-target",
-                         f"{case['isa']} {case['reloc']}: S={case['S']} P={case['P']} is representable, apply gives {impl[3:]} which designates {m[3:]}",
+                ctx.fail(f"{case['cls']}:wrong-target-{case['region']}",
+                         f"{case['isa']} {case['reloc']}: displacement {case['d']} (S={case['S']} P={case['P']}, region {case['region']}) is "
+                         f"representable, apply gives {impl[3:]} which designates {m[3:]}",
                          case, impl=impl, spec_target=m)
         elif kind == "rhilo":
             c, rel = case
@@ -359,7 +388,8 @@ def check_relocs(ctx, tabs):
             m2, rel = hilo_val[(case["reloc"], case["S"], case["P"])]
             want = (case["S"] - case["P"]) % (1 << 32) if rel else case["S"]
             if m2 != f"ok {want}":
-                sig = "Abs32Imm20Relocation:no-range-check" if not rel else "RelImm20Relocation:wrong-pair-value"
+                sig = (f"Abs32Imm20Relocation:accepts-{region('abs32_imm20', case['S'])}" if not rel
+                       else "RelImm20Relocation:wrong-pair-value")
                 if not rel and m == "ok true":
                     sig = "Abs32Imm20Relocation:wrong-pair-value"
                 ctx.fail(sig, f"riscv {case['reloc']}: S={case['S']} P={case['P']}: the pair computes {m2[3:]}, expected {want}", case)
